@@ -548,6 +548,7 @@ def run(repo: Repo, ctx) -> None:
     _r11(repo, ctx)
     _r12(repo, ctx)
     _r13(repo, ctx)
+    _r14(repo, ctx)
 
 
 OBJS = 'edb.schema.objects'
@@ -1169,3 +1170,101 @@ def _r13(repo: Repo, ctx) -> None:
                f'`ancestors`, `descendants()` and the refdicts disagree with '
                f'the bases', f'{fin.module.rel()}:{l.lineno}',
                sample='for d in self.scls.ordered_descendants(schema)')
+
+
+
+def _r14(repo: Repo, ctx) -> None:
+    """C04.R14 the decoder of derived names undoes the encoder.
+    `mangle_name` doubles the two escape characters and then writes the
+    separators `::` / `@` as one escape character each; `unmangle_name` has
+    to turn exactly the *isolated* escape characters back into separators
+    before halving the doubled ones.  "Isolated" needs both a negative
+    look-behind and a negative look-ahead for the same character: without
+    either, one half of a doubled (i.e. literal) character is read as a
+    separator and the name of a derived object decodes to a different local
+    name -- the owner's index files it under a name it does not bear."""
+    import re._parser as _rp           # regex AST only; nothing is matched
+    import re._constants as _rc
+    ctx.floor('C04.R14', 2)
+    NM = 'edb.schema.name'
+    m = repo.module(NM)
+    mg = repo.func(f'{NM}.mangle_name')
+    um = repo.func(f'{NM}.unmangle_name')
+    ctx.saw(mg)
+    ctx.saw(um)
+    # encoder: chain of .replace(a, b)
+    chain = []
+    for c in ast.walk(mg.node):
+        if isinstance(c, ast.Call) and isinstance(c.func, ast.Attribute) \
+                and c.func.attr == 'replace' and len(c.args) == 2 and all(
+                isinstance(a, ast.Constant) and isinstance(a.value, str)
+                for a in c.args):
+            chain.append((c.args[0].value, c.args[1].value))
+    doubled = {a for a, b in chain if len(a) == 1 and b == a * 2}
+    seps = {b: a for a, b in chain if len(b) == 1 and b in doubled}
+    if not doubled or set(seps) != doubled:
+        raise AnalysisError(f'C04.R14: mangle_name is not the doubling + '
+                            f'separator scheme any more ({chain})')
+    consts = {}
+    for st in m.tree.body:
+        if isinstance(st, ast.Assign) and len(st.targets) == 1 and \
+                isinstance(st.targets[0], ast.Name) and isinstance(
+                st.value, ast.Call) and norm(st.value.func) == 're.compile' \
+                and st.value.args and isinstance(st.value.args[0],
+                                                 ast.Constant):
+            consts[st.targets[0].id] = st.value.args[0].value
+    subs = []
+    for c in ast.walk(um.node):
+        if isinstance(c, ast.Call) and isinstance(c.func, ast.Attribute) \
+                and c.func.attr == 'sub' and isinstance(
+                c.func.value, ast.Name) and c.func.value.id in consts \
+                and c.args and isinstance(c.args[0], ast.Constant):
+            subs.append((c.func.value.id, c.args[0].value, c.lineno))
+    if len(subs) < len(doubled):
+        raise AnalysisError('C04.R14: unmangle_name does not decode the '
+                            'separators through module-level patterns any '
+                            'more')
+
+    def isolated(pat: str):
+        """(char, has look-behind, has look-ahead) of `(?<!c)c(?!c)`"""
+        items = list(_rp.parse(pat))
+        lit = [v for op, v in items if op is _rc.LITERAL]
+        if len(lit) != 1:
+            return None
+        ch = lit[0]
+
+        def neg(op_av, direction):
+            op, av = op_av
+            if op is not _rc.ASSERT_NOT or av[0] != direction:
+                return False
+            inner = list(av[1])
+            if len(inner) != 1:
+                return False
+            o, v = inner[0]
+            if o is _rc.LITERAL:
+                return v == ch
+            if o is _rc.IN:
+                return [x for x in v] == [(_rc.LITERAL, ch)]
+            return False
+        i = [k for k, (op, v) in enumerate(items) if op is _rc.LITERAL][0]
+        before = any(neg(it, -1) for it in items[:i])
+        after = any(neg(it, 1) for it in items[i + 1:])
+        return chr(ch), before, after
+    for name, repl, line in subs:
+        iso = isolated(consts[name])
+        if iso is None:
+            raise AnalysisError(f'C04.R14: pattern {name} = '
+                                f'{consts[name]!r} is not of the form '
+                                f'(?<!c)c(?!c)')
+        ch, before, after = iso
+        ok = before and after and ch in seps and seps[ch] == repl
+        ctx.ob('C04.R14', f'unmangle_name:{name}:isolated-escape-only', ok,
+               f'{name} = {consts[name]!r} turns `{ch}` into `{repl}` '
+               + ('without a negative look-behind' if not before else
+                  'without a negative look-ahead' if not after else
+                  'which mangle_name does not write for it')
+               + f': one half of a doubled `{ch}` (a literal `{ch}` in an '
+                 f'identifier) is decoded as a separator, so a derived '
+                 f'name decodes to another local name than it was built '
+                 f'from', f'{m.rel()}:{line}',
+               sample=f'(?<![{ch}]){ch}(?![{ch}]) -> {repl}')
